@@ -7,8 +7,10 @@ Rows listed in FALSE_ROWS (the full statement is false of the C that wat2c emits
     theorem <row>_partial    : Partial<n> … <operand guard fixed by the instruction> …
     theorem <row>_full_false : ¬ Full<n> …         (by a concrete witness; the check replays it through compiled C)
     theorem <row>_sound      : Sound<n> …          (whenever the C has defined behaviour and returns, it returns WebAssembly's result)
-Run by hand (python3 tools/gen_c03_props.py) when the set of rows or FALSE_ROWS changes; `--probe` first asks the executable
-Lean model (wamodel_c03) for a counterexample of every row on the boundary grid and prints the classification it suggests.
+Run by hand (python3 tools/gen_c03_props.py) when the set of rows or FALSE_ROWS changes.  With `--auto` the classification is not
+taken from FALSE_ROWS but decided by the executable Lean model (wamodel_c03, which must have been built for the current
+Gen/C03Templates.lean — `./check C03` does that): a row is false iff the model finds a counterexample on the boundary grid; FALSE_ROWS
+then only supplies the guard and the explanation.  Use it after repairs to wat2c were applied to /repo.
 The witnesses are also written to lean/WaVerif/Props/C03Witnesses.json for the check.
 """
 import json, os, re, sys
@@ -101,7 +103,31 @@ def modules():
     return ["WaVerif.Props.C03Rows" + g for g in GROUPS]
 
 
+def probe(rows):
+    """ask the executable Lean model (built for the CURRENT Gen/C03Templates.lean) for a counterexample of each row's full
+    statement on the boundary grid + the table's witness: name -> hex operand list of the first failing point (or absent)"""
+    import subprocess
+    exe = os.path.join(V, "lean/.lake/build/bin/wamodel_c03")
+    lines, meta = [], []
+    for r in rows:
+        pts = list(R.calls_for(r, "thorough"))
+        if r.key in FALSE_ROWS:
+            pts.insert(0, tuple(int(h, 16) for h in FALSE_ROWS[r.key][1]))
+        for a in pts:
+            lines.append("%s n %s %s" % (r.name, r.key, " ".join("%x" % x for x in a)))
+            meta.append((r, a))
+    out = subprocess.run([exe], input="\n".join(lines) + "\n", stdout=subprocess.PIPE, text=True, timeout=3600).stdout.splitlines()
+    assert len(out) == len(lines), (len(out), len(lines))
+    bad = {}
+    for (r, a), l in zip(meta, out):
+        c, _, w = l.partition(" | ")
+        if w != "-" and c != w and r.name not in bad:
+            bad[r.name] = ["%x" % x for x in a]
+    return bad
+
+
 def main():
+    auto = "--auto" in sys.argv
     src = open(os.path.join(V, "lean/WaVerif/Gen/C03Templates.lean")).read()
     modelled = set(re.findall(r"^def f_(\w+) : CFunc", src, re.M))
     head = ["import WaVerif.Model.C03Spec", "import WaVerif.Gen.C03Templates", "import WaVerif.Lemmas.C03Tac",
@@ -111,17 +137,20 @@ def main():
     outs = dict((g, list(head)) for g in GROUPS)
     wit = {}
     n_ok = n_false = 0
-    for row in R.all_rows():
-        if row.name not in modelled:
-            continue
+    cand = [r for r in R.all_rows() if r.name in modelled and statement(r) is not None]
+    failing = probe([r for r in cand if len(r.params) in (1, 2, 3)]) if auto else None
+    for row in cand:
         st = statement(row)
-        if st is None:
-            continue
         out = outs[group_of(row)]
         ar, body = st
         nm = row.name
-        if row.key in FALSE_ROWS and ar == 2:
+        is_false = (row.key in FALSE_ROWS) if failing is None else (nm in failing)
+        if is_false and (row.key not in FALSE_ROWS or ar != 2):
+            raise SystemExit("row %s: the model finds a counterexample of the full statement at %s but tools/gen_c03_props.py has no guard for it" % (nm, failing[nm]))
+        if is_false:
             guard, w, why = FALSE_ROWS[row.key]
+            if failing is not None:
+                w = failing[nm]
             injs, spec = body.rsplit(" (", 1)
             spec = "(" + spec
             out.append("/-- `%s`: %s -/" % (row.ins, why))
